@@ -157,9 +157,11 @@ def r3(ctx: Ctx) -> None:
             continue
         n_sinks += 1
         pushed = s[2][-1]
-        rects = sorted({a for a in atoms_of(pushed, lambda x: x[0] == "v")}, key=skey)
         facts = g.facts_at(n.id)
-        ok = any(mk_not(mk_lt(limit, ("a", r, "aspect_ratio"))) in facts for r in rects)
+        # whatever was tested -- a local, or the expression a single-definition local stands for -- is what is pushed
+        tested = {a[1] for f in facts for a in atoms_of(f, lambda x: x[0] == "a" and len(x) == 3 and x[2] == "aspect_ratio")
+                  if mk_not(mk_lt(limit, a)) in facts}
+        ok = any(contains(pushed, r) for r in tested)
         ctx.site(fi.where, "push into the result is dominated by the aspect-ratio test", stmt=norm_stmt(n.ast), guarded=ok)
         if not ok:
             ctx.report(fi.where, f"unchecked-push {norm_stmt(n.ast)}",
